@@ -26,6 +26,7 @@ RULE = (
     'root; tag-selection iteration yields value, else default, else NO_VALUE. Non-trivial: a '
     'matching node is shared or nested inside another matching node.'
 )
+RULE += (' ' + 'Also generated: op reuse -- the same selection object is iterated, the configuration is edited (matching node added and/or removed), and the object is iterated and .set() again; it must reflect the current matches (NodeSelection is documented as declarative).')
 ASSUMPTIONS = [
     'replace on a selection that matches the root must raise ValueError (documented)',
     'containers may be rebuilt by replace; only Buildables are required to keep identity',
